@@ -607,6 +607,62 @@ class C20(Prop):
             ctx.extra["serde_roundtrips_" + feat.replace(",", "_")] = n
         return failing
 
+class C19(Prop):
+    id = "C19"; module = "Adsb.Theorems.C19"; design_ref = "5/C19"
+    deps = ["shape:ReaderCrc::read", "shape:ReaderCrc::seek", "shape:Frame::from_reader", "shape:Frame::read_crc"]
+    rule = ("frames of every format / type code / BDS variant (each has its own read/seek pattern), complete and truncated: every chunking with sizes "
+            "{1,2,3,all}, every single placement of an Interrupted error over the first 48 read calls, pairs of placements (thorough), random schedules; "
+            "each compared with the slice decode of the same bytes; repeated and interleaved decodes")
+    claim = "read_exact over ReaderCrc returns the same bytes and leaves the same cache for every schedule; any call sequence refines the slice cursor (theorems)"
+    note = "assumes deku's Reader issues only read_exact calls and backward seeks over bytes already read (rules R1-R3 of DESIGN.md), validated by the correspondence"
+    def frames(self, rng, tier):
+        fr = []
+        for df in VALID_DF:
+            if df in (17, 18):
+                for tc in range(32):
+                    b = rand_frame(rng, df, tc=tc)
+                    if tc == 31: make_opstatus_ok(rng, b, rng.below(2)) if rng.chance(2, 3) else put(b, 37, 3, 2 + rng.below(6))
+                    if tc == 19: put(b, 37, 3, rng.below(8))
+                    fr.append(b)
+            elif df in (20, 21):
+                for bds in (0, 0x10, 0x20, 0x31): fr.append(rand_frame(rng, df, bds=bds))
+            else:
+                fr.append(rand_frame(rng, df))
+            for ca in (1, 2, 3):
+                if df in (11, 17, 24, 31):
+                    b = rand_frame(rng, df); put(b, 5, 3, ca); fr.append(b)
+            if df in (4, 5, 20, 21):
+                b = rand_frame(rng, df); put(b, 8, 5, rng.choice([2, 3, 6, 31])); fr.append(b)
+        out = list(fr)
+        for b in fr[::5]:
+            out.append(b[:len(b) - 1 - rng.below(len(b) - 1)])       # truncated
+            out.append(b + bytearray(rng.bits(24).to_bytes(3, "big")))  # trailing bytes
+        return out
+    def ops(self, rng, tier):
+        ops = []
+        self._pairs = []
+        for b in self.frames(rng, tier):
+            h = bytes(b).hex()
+            base = len(ops); ops.append("F " + h)
+            scheds = ["-", "1", "2", "3"] + [",".join([str(k)] * 60) for k in (1, 2, 3)]
+            for pos in range(48):
+                scheds.append(",".join(["20"] * pos + ["I"]))
+                if tier != "quick" or pos % 3 == 0: scheds.append(",".join(["1"] * pos + ["I", "I", "1"]))
+            if tier != "quick":
+                for p1 in range(0, 30, 2):
+                    for p2 in range(p1 + 1, 30, 3):
+                        scheds.append(",".join(["20"] * p1 + ["I"] + ["20"] * (p2 - p1 - 1) + ["I"]))
+            for k in range(6 if tier == "quick" else 40):
+                scheds.append(",".join(rng.choice(["I", "1", "1", "2", "3", "7", "20"]) for _ in range(1 + rng.below(50))))
+            for sc in scheds:
+                self._pairs.append((base, len(ops), "from_reader under schedule %s differs from from_bytes" % sc[:40]))
+                ops.append("R %s %s" % (h, sc))
+            self._pairs.append((base, len(ops), "repeated decode differs")); ops.append("F " + h)
+        return ops
+    def pairs(self, ops): return self._pairs
+    def norm(self, line): return line
+    def project(self, op, line): return line
+
 class C01(Prop):
     id = "C01"; module = "Adsb.Theorems.C01"; design_ref = "5/C01"
     deps = []
@@ -653,5 +709,5 @@ class C01(Prop):
     def nontrivial(self, op, line): return line.startswith(("OK", "TXT", "VEL some", "POS some", "ADDED"))
 
 ALL = {}
-for c in [C01, C02, C03, C04, C06, C07, C08, C09, C10, C12, C13, C14, C15, C20]:
+for c in [C01, C02, C03, C04, C06, C07, C08, C09, C10, C12, C13, C14, C15, C19, C20]:
     ALL[c.id] = c
